@@ -664,8 +664,25 @@ class Gen:
             h = self.block(depth + 1, in_loop, must_match_first=r.random() < 0.6, minlen=0) if r.random() < 0.85 else []
             return {'t': 'try', 'b': self.block(depth + 1, in_loop), 'handles': handles, 'h': h}
         if k < 0.65 and 'foreach' in f:
-            acts = [a for a in (self.action(True, False, 1) for _ in range(r.randint(1, 2))) if a is not None and a['t'] not in ('finish', 'yield', 'break')]
+            def _ctl(a):
+                # control transfers (also nested in conditional actions) are not each-character actions
+                if a['t'] in ('finish', 'yield', 'break'):
+                    return True
+                if a['t'] == 'if':
+                    return any(_ctl(x) for b in a['br'] for x in b['b']) or any(_ctl(x) for x in (a.get('els') or []))
+                return False
+            acts = [a for a in (self.action(True, False, 1) for _ in range(r.randint(1, 2))) if a is not None and not _ctl(a)]
             if acts:
+                if depth < self.maxdepth and r.random() < 0.45:
+                    # a structured body (nested loop / try / case ...): the do-actions run once per consumed byte, never on
+                    # the moves inside the body that consume nothing
+                    # (known finding foreach-wait-end-each-actions: no `wait` inside a foreach body)
+                    saved = self.f
+                    self.f = self.f - {'wait', 'idiom'}
+                    try:
+                        return {'t': 'foreach', 'b': self.block(depth + 1, in_loop), 'acts': acts}
+                    finally:
+                        self.f = saved
                 return {'t': 'foreach', 'b': [{'t': 'match', 'm': self.match()}] + ([{'t': 'match', 'm': self.match()}] if r.random() < 0.3 else []), 'acts': acts}
         if k < 0.8 and 'if' in f:
             br = [{'c': self.cond_expr(True), 'b': self.block(depth + 1, in_loop, must_match_first=r.random() < 0.7)} for _ in range(r.randint(1, 2))]
@@ -916,6 +933,20 @@ def gen_protocol_program(seed):
     body = [{'t': 'loop', 'name': None, 'b': [{'t': 'case', 'greedy': False, 'cl': cl}]}]
     if r.random() < 0.3:
         body = [{'t': 'match', 'm': {'k': 'str', 'bytes': [r.choice(b'pq')]}}] + run()[:2] + body
+    if r.random() < 0.35:
+        # tagged field: a tag byte dispatched by a case (one clause yields on the consuming transition), then a bounded
+        # string filled from the input - with and without an out-of-space handler (where does the pointer stand on FAIL?)
+        outs = outs + [{'name': 's', 'type': 'str', 'size': r.choice([3, 4]), 'term': r.random() < 0.6, 'default': None}]
+        tags = r.sample(A, 2)
+        tcl = [{'ps': [{'k': 'str', 'bytes': [tags[0]]}], 'prio': 0, 'b': [{'t': 'yield', 'code': r.choice(ycodes)}]},
+               {'ps': [{'k': 'str', 'bytes': [tags[1]]}], 'prio': 0, 'b': r.choice([[inc], [{'t': 'hook', 'n': 'h'}, {'t': 'yield', 'code': r.choice(ycodes)}], []])}]
+        fill = {'t': 'append', 'var': 's', 'm': {'k': 're', 'r': {'k': 'plus', 'c': {'k': 'set', 'inv': False, 'items': [['range', 113, 122]]}}, 'bin': False}}
+        field = [{'t': 'case', 'greedy': False, 'cl': tcl}, fill, {'t': 'match', 'm': {'k': 'str', 'bytes': [59]}}]
+        k = r.random()
+        if k < 0.4:
+            field = [{'t': 'try', 'b': field, 'handles': ['outofspace'],
+                      'h': [inc, {'t': 'wait', 'm': {'k': 'str', 'bytes': [59]}}, {'t': 'delete', 'var': 's'}]}]
+        body = [{'t': 'loop', 'name': None, 'b': field + [{'t': 'hook', 'n': 'h'}] + ([{'t': 'delete', 'var': 's'}] if r.random() < 0.5 else [])}]
     p = {'outs': outs, 'hooks': ['h'], 'fcodes': fcodes, 'ycodes': ycodes, 'macros': [], 'body': body, 'args': ['-fyield-support']}
     return p, spell_program(p)
 
@@ -956,6 +987,82 @@ def gen_range_program(seed):
     inv = {'k': 're', 'r': {'k': 'set', 'inv': True, 'items': runs()}, 'bin': binary}
     body = [{'t': 'loop', 'name': None, 'b': [{'t': 'case', 'greedy': False, 'cl': cl}, {'t': 'match', 'm': inv}, {'t': 'hook', 'n': 'h'}]}]
     p = {'outs': outs, 'hooks': ['h'], 'fcodes': [], 'ycodes': [], 'macros': [], 'body': body, 'args': []}
+    return p, spell_program(p)
+
+
+def gen_foreach_program(seed):
+    """foreach family (C01): structured foreach bodies - nested loops left by breaks, try/catch with mismatches, case, optional -
+    with non-idempotent do-actions (counter, hook, accumulator): they run exactly once per consumed byte"""
+    r = random.Random(seed)
+    A = list(b'abc;x')
+    outs = [{'name': 'n', 'type': 'int', 'signed': None, 'width': None, 'default': 0},
+            {'name': 'acc', 'type': 'int', 'signed': None, 'width': None, 'default': 0}]
+    inc = {'t': 'set', 'var': 'n', 'e': {'k': 'bin', 'op': '+', 'l': {'k': 'var', 'name': 'n'}, 'r': {'k': 'num', 'v': 1}}}
+    accu = {'t': 'set', 'var': 'acc', 'e': {'k': 'bin', 'op': '+', 'l': {'k': 'bin', 'op': '*', 'l': {'k': 'var', 'name': 'acc'}, 'r': {'k': 'num', 'v': 3}}, 'r': {'k': 'last'}}}
+    lit = lambda *bs: {'t': 'match', 'm': {'k': 'str', 'bytes': list(bs)}}
+
+    def piece():
+        k = r.randrange(6)
+        if k == 0:
+            x, y = r.sample(A, 2)
+            return [{'t': 'loop', 'name': None, 'b': [{'t': 'match', 'm': {'k': 're', 'r': {'k': 'set', 'inv': False, 'items': [['ch', x], ['ch', y]]}, 'bin': False}},
+                                                       {'t': 'if', 'br': [{'c': {'k': 'bin', 'op': '==', 'l': {'k': 'last'}, 'r': {'k': 'chr', 'c': y}}, 'b': [{'t': 'break', 'loop': None}]}], 'els': None}]}]
+        if k == 1:
+            x, y = r.sample(A, 2)
+            return [{'t': 'try', 'b': [lit(x), lit(y)], 'handles': r.choice([None, ['nomatch']]), 'h': [lit(r.choice(A))] + ([{'t': 'hook', 'n': 'e'}] if r.random() < 0.5 else [])}]
+        if k == 2:
+            fs = r.sample(A, 3)
+            return [{'t': 'case', 'greedy': False, 'cl': [{'ps': [{'k': 'str', 'bytes': [fs[0]]}], 'prio': 0, 'b': [{'t': 'hook', 'n': 'e'}]},
+                                                           {'ps': [{'k': 'str', 'bytes': [fs[1], fs[2]]}], 'prio': 0, 'b': []},
+                                                           {'ps': ['else'], 'prio': 0, 'b': [lit(r.choice(A))]}]}]
+        if k == 3:
+            return [{'t': 'opt', 'b': [lit(r.choice(A))]}, lit(r.choice(b'yz'))]
+        if k == 4:
+            # a loop of items separated by commas, left through a case
+            return [{'t': 'loop', 'name': None, 'b': [lit(r.choice(A)), {'t': 'case', 'greedy': False, 'cl': [
+                {'ps': [{'k': 'str', 'bytes': [44]}], 'prio': 0, 'b': []}, {'ps': [{'k': 'str', 'bytes': [46]}], 'prio': 0, 'b': [{'t': 'break', 'loop': None}]}]}]}]
+        return [{'t': 'match', 'm': {'k': 're', 'r': {'k': 'plus', 'c': {'k': 'cc', 'n': 'd'}}, 'bin': False}}, lit(r.choice(A))]
+    body = []
+    for _ in range(r.randint(1, 2)):
+        body += piece()
+    acts = r.choice([[inc], [inc, {'t': 'hook', 'n': 'h'}], [accu], [{'t': 'hook', 'n': 'h'}, accu]])
+    prog = [{'t': 'foreach', 'b': body, 'acts': acts}, {'t': 'hook', 'n': 'e'}, lit(33)]
+    if r.random() < 0.3:
+        prog = [lit(r.choice(b'pq'))] + prog
+    p = _mk(outs, ['h', 'e'], [], [], prog)
+    return p, spell_program(p)
+
+
+def gen_lifecycle_program(seed):
+    """string life-cycle family (C03/C12): one input byte selects one operation on a string with a default value and on one
+    without - delete, constant assignment, character append, append from the input, reads of length and indexed bytes - in a loop,
+    so that every order of operations (delete then assign, delete then append, assign twice, fill up then delete ...) is a short input"""
+    r = random.Random(seed)
+    size_s, size_t = r.choice([3, 4, 5]), r.choice([2, 3])
+    outs = [{'name': 's', 'type': 'str', 'size': size_s, 'term': r.random() < 0.6, 'default': [r.choice(b'AB') for _ in range(r.randint(1, 2))]},
+            {'name': 't', 'type': 'str', 'size': size_t, 'term': r.random() < 0.5, 'default': None},
+            {'name': 'n', 'type': 'int', 'signed': None, 'width': None, 'default': 0}]
+    ops = {
+        'd': [{'t': 'delete', 'var': 's'}], 'e': [{'t': 'delete', 'var': 't'}],
+        'a': [{'t': 'setstr', 'var': 's', 'bytes': [r.choice(b'xyz') for _ in range(r.randint(0, 2))]}],
+        'b': [{'t': 'setstr', 'var': 't', 'bytes': [r.choice(b'xyz')]}],
+        'p': [{'t': 'appendc', 'var': 's', 'e': {'k': 'last'}}], 'q': [{'t': 'appendc', 'var': 't', 'e': {'k': 'num', 'v': 81}}],
+        'l': [{'t': 'set', 'var': 'n', 'e': {'k': 'bin', 'op': '+', 'l': {'k': 'len', 'name': 's'}, 'r': {'k': 'bin', 'op': '*', 'l': {'k': 'len', 'name': 't'}, 'r': {'k': 'num', 'v': 10}}}}],
+        'i': [{'t': 'set', 'var': 'n', 'e': {'k': 'bin', 'op': '+', 'l': {'k': 'idx', 'name': 's', 'i': {'k': 'num', 'v': 0}}, 'r': {'k': 'idx', 'name': 't', 'i': {'k': 'num', 'v': 1}}}}],
+        'h': [{'t': 'hook', 'n': 'h'}],
+        'D': [{'t': 'delete', 'var': 's'}, {'t': 'setstr', 'var': 's', 'bytes': [119]}],
+    }
+    keys = r.sample(sorted(ops), r.randint(5, 8))
+    for must in ('d', 'a'):
+        if must not in keys:
+            keys.append(must)
+    cl = [{'ps': [{'k': 'str', 'bytes': [ord(k)]}], 'prio': 0, 'b': ops[k]} for k in keys]
+    cl.append({'ps': [{'k': 'str', 'bytes': [109]}], 'prio': 0, 'b': [{'t': 'append', 'var': r.choice(['s', 't']), 'm': {'k': 're', 'r': {'k': 'plus', 'c': {'k': 'cc', 'n': 'd'}}, 'bin': False}}, {'t': 'match', 'm': {'k': 'str', 'bytes': [59]}}]})
+    cl.append({'ps': [{'k': 'str', 'bytes': [46]}], 'prio': 0, 'b': [{'t': 'break', 'loop': None}]})
+    inner = [{'t': 'try', 'b': [{'t': 'case', 'greedy': False, 'cl': cl}], 'handles': ['outofspace'],
+              'h': [{'t': 'match', 'm': {'k': 're', 'r': {'k': 'any'}, 'bin': False}}, {'t': 'delete', 'var': r.choice(['s', 't'])}, {'t': 'hook', 'n': 'h'}]}]
+    body = [{'t': 'loop', 'name': None, 'b': inner}, {'t': 'hook', 'n': 'h'}]
+    p = _mk(outs, ['h'], [], [], body)
     return p, spell_program(p)
 
 
@@ -1086,8 +1193,16 @@ def gen_wait_program(seed):
                 break
             rx = g.regex(0)
         pat = {'k': 're', 'r': rx, 'bin': False} if not regex_nullable(rx) else {'k': 'str', 'bytes': [97, 98]}
-    else:
+    elif k < 0.93:
         pat = {'k': 'cat', 'ms': [{'k': 'str', 'bytes': [r.choice(A)]}, {'k': 'str', 'bytes': [r.choice(A), r.choice(A)]}]}
+    else:
+        # restart-sensitive regex: an inverted set / wildcard / \D in the middle that excludes a byte which can start the
+        # pattern again (wait /a[^a]b/ on "aaxb" must re-examine the second a)
+        x, y = r.choice(A), r.choice(A)
+        mid = r.choice([{'k': 'set', 'inv': True, 'items': [['ch', x]]}, {'k': 'set', 'inv': True, 'items': [['ch', x], ['ch', r.choice(A)]]},
+                        {'k': 'any'}, {'k': 'cc', 'n': r.choice(['D', 'W', 'S'])}])
+        seq = [{'k': 'ch', 'c': x}] + ([{'k': 'ch', 'c': r.choice(A)}] if r.random() < 0.3 else []) + [mid, {'k': 'ch', 'c': y}]
+        pat = {'k': 're', 'r': {'k': 'seq', 'c': seq}, 'bin': False}
     outs = [{'name': 'n', 'type': 'int', 'signed': None, 'width': None, 'default': 0}, {'name': 's', 'type': 'str', 'size': 4, 'term': True, 'default': None}]
     hooks = ['got', 'err']
     after = [{'t': 'hook', 'n': 'got'}, {'t': 'match', 'm': {'k': 'str', 'bytes': [r.choice(b'xy')]}}]
@@ -1122,8 +1237,31 @@ def gen_end_program(seed):
     def lit(n=None):
         return {'t': 'match', 'm': {'k': 'str', 'bytes': [r.choice(A) for _ in range(n or r.randint(1, 2))]}}
     mark = lambda v: {'t': 'set', 'var': 'seen', 'e': {'k': 'num', 'v': v}}
-    shape = r.randrange(8)
-    if shape == 0:
+    shape = r.randrange(11)
+    inv = lambda bs: {'k': 're', 'r': {'k': 'set', 'inv': True, 'items': [['ch', b] for b in bs]}, 'bin': False}
+    if shape == 8:
+        # a case whose decider has an inverted-set arm and literal arms covering (some of) the excluded bytes: end-of-input in
+        # the decider state matches no data pattern
+        ex = r.sample(A, 2)
+        cl = [{'ps': [inv(ex)], 'prio': 0, 'b': [mark(1)]}, {'ps': [{'k': 'str', 'bytes': [ex[0]]}], 'prio': 0, 'b': [mark(2)]}]
+        if r.random() < 0.7:
+            cl.append({'ps': [{'k': 'str', 'bytes': [ex[1]]}], 'prio': 0, 'b': [mark(3)]})
+        if r.random() < 0.5:
+            cl.append({'ps': ['else'], 'prio': 0, 'b': [mark(4)]})
+        body = [lit(1), {'t': 'case', 'greedy': False, 'cl': cl}, {'t': 'hook', 'n': 'h'}]
+    elif shape == 9:
+        # wildcard / inverted set in the middle of a pattern arm
+        x = r.choice(A)
+        rx = {'k': 're', 'r': {'k': 'seq', 'c': [{'k': 'ch', 'c': x}, r.choice([{'k': 'any'}, {'k': 'set', 'inv': True, 'items': [['ch', r.choice(A)]]}])]}, 'bin': False}
+        cl = [{'ps': [rx], 'prio': 0, 'b': [mark(1)]}, {'ps': [{'k': 'str', 'bytes': [r.choice([b for b in A if b != x])]}], 'prio': 0, 'b': [mark(2)]}]
+        if r.random() < 0.5:
+            cl.append({'ps': ['else'], 'prio': 0, 'b': [mark(4)]})
+        body = [{'t': 'case', 'greedy': r.random() < 0.3, 'cl': cl}, {'t': 'hook', 'n': 'h'}]
+    elif shape == 10:
+        # hooks and assignments using $last on the end path of a case (the value passed at end-of-input)
+        body = [lit(1), {'t': 'case', 'greedy': False, 'cl': [{'ps': [END_], 'prio': 0, 'b': [{'t': 'hook', 'n': 'h'}, mark(2)]},
+                                                                {'ps': [inv([r.choice(A)])], 'prio': 0, 'b': [mark(3), {'t': 'hook', 'n': 'h'}]}]}]
+    elif shape == 0:
         body = [lit(), {'t': 'match', 'm': END_}]
     elif shape == 1:
         body = [lit(), {'t': 'match', 'm': END_}, mark(2), {'t': 'hook', 'n': 'h'}] + ([{'t': 'finish', 'code': 'LATE'}] if r.random() < 0.5 else [])
@@ -1162,9 +1300,21 @@ def gen_zp_program(seed):
     lit = lambda b: {'t': 'match', 'm': {'k': 'str', 'bytes': [b]}}
     anyb = {'t': 'match', 'm': {'k': 're', 'r': {'k': 'any'}, 'bin': False}}
     safe = r.random() < 0.45
-    shape = r.randrange(6)
+    shape = r.randrange(7)
     uses_yield = False
-    if shape == 0:
+    if shape == 6:
+        # a case with an inverted-set clause: the else clause only ever receives the few excluded bytes that no other clause
+        # takes, so a cycle through an empty else exists for those bytes only
+        ex = r.sample(A, 3)
+        eb = [] if not safe else [anyb]
+        if r.random() < 0.4:
+            eb = eb + [inc]
+        body = [{'t': 'loop', 'name': None, 'b': [{'t': 'case', 'greedy': False, 'cl': [
+            {'ps': [{'k': 're', 'r': {'k': 'set', 'inv': True, 'items': [['ch', b] for b in ex]}, 'bin': False}], 'prio': 0, 'b': [inc]},
+            {'ps': [{'k': 'str', 'bytes': [ex[0]]}], 'prio': 0, 'b': [{'t': 'hook', 'n': 'h'}]},
+            {'ps': [{'k': 'str', 'bytes': [ex[1]]}], 'prio': 0, 'b': [{'t': 'break', 'loop': None}]},
+            {'ps': ['else'], 'prio': 0, 'b': eb}]}]}, lit(33)]
+    elif shape == 0:
         x = r.choice(['yield', 'hook', 'empty', 'set'])
         eb = {'yield': [{'t': 'yield', 'code': 'U'}], 'hook': [{'t': 'hook', 'n': 'h'}], 'empty': [], 'set': [inc]}[x]
         uses_yield = x == 'yield'
@@ -1312,7 +1462,8 @@ def gen_expr_program(seed, wide=False):
         if op in ('/', '%'):
             rr = r.choice([{'k': 'num', 'v': r.choice([1, 2, 3, 7, 10, 16])}, arith(d - 1)])
         elif op in ('<<', '>>'):
-            rr = r.choice([{'k': 'num', 'v': r.randint(0, 40 if wide else 7)}, {'k': 'bin', 'op': '&', 'l': atom(), 'r': {'k': 'num', 'v': 63 if wide else 7}}])
+            rr = r.choice([{'k': 'num', 'v': r.randint(0, 31 if wide else 7)},     # (a constant count >= the operand width is the user's -Wshift-count-overflow)
+                            {'k': 'bin', 'op': '&', 'l': atom(), 'r': {'k': 'num', 'v': 63 if wide else 7}}])
         else:
             rr = arith(d - 1)
         return {'k': 'bin', 'op': op, 'l': l, 'r': rr}
